@@ -15,6 +15,7 @@ import (
 	"net"
 	"os"
 	"os/exec"
+	"runtime"
 	"strconv"
 	"strings"
 	"sync"
@@ -32,8 +33,9 @@ type actEnv struct {
 		Set bool     `json:"set"`
 		V   []string `json:"v"`
 	} `json:"names"`
-	Kinds []string `json:"kinds"`
-	Addr  string   `json:"addr"`
+	Kinds  []string `json:"kinds"`
+	Addr   string   `json:"addr"`
+	Rounds int      `json:"rounds"`
 }
 
 // helper, stage 1: fix LISTEN_PID, re-exec (same pid, same descriptors)
@@ -61,6 +63,22 @@ func cmdActHelper(args []string) int {
 		}
 	}
 	svc, _ := varlink.NewService("ven", os.Getenv("VERIF_ACT_PRODUCT"), "1", "u")
+	if os.Getenv("VERIF_ACT_ROUNDS") == "2" {
+		// a first serving round, ended by Shutdown; the garbage collector gets its chance; then the round that is probed
+		done := make(chan error, 1)
+		go func() { done <- svc.Listen(context.Background(), os.Getenv("VERIF_ACT_ADDR"), 0) }()
+		time.Sleep(150 * time.Millisecond)
+		svc.Shutdown()
+		select {
+		case <-done:
+		case <-time.After(3 * time.Second):
+		}
+		for i := 0; i < 3; i++ {
+			runtime.GC()
+			time.Sleep(20 * time.Millisecond)
+		}
+		fmt.Fprintln(os.Stderr, "ROUND2")
+	}
 	err := svc.Listen(context.Background(), os.Getenv("VERIF_ACT_ADDR"), 0)
 	fmt.Fprintln(os.Stderr, "listen returned:", err)
 	return 4
@@ -98,6 +116,18 @@ func runActEnv(e *actEnv, id int) (string, bool) {
 }
 
 // identity of the file at path: inode and change time (a removed and re-created file may get the same inode again)
+type lockedBuf struct {
+	mu sync.Mutex
+	b  bytes.Buffer
+}
+
+func (l *lockedBuf) Write(p []byte) (int, error) {
+	l.mu.Lock()
+	defer l.mu.Unlock()
+	return l.b.Write(p)
+}
+func (l *lockedBuf) String() string { l.mu.Lock(); defer l.mu.Unlock(); return l.b.String() }
+
 func inodeOf(path string) uint64 {
 	var st syscall.Stat_t
 	if syscall.Lstat(path, &st) != nil {
@@ -185,8 +215,11 @@ func runActEnv1(e *actEnv, id int) (answer string, fileKept bool) {
 		env = append(env, "LISTEN_FDNAMES="+strings.Join(e.Names.V, ":"))
 	}
 	cmd.Env = env
-	var stderr bytes.Buffer
-	cmd.Stderr = &stderr
+	stderr := &lockedBuf{}
+	cmd.Stderr = stderr
+	if e.Rounds == 2 {
+		cmd.Env = append(cmd.Env, "VERIF_ACT_ROUNDS=2")
+	}
 	if err := cmd.Start(); err != nil {
 		return "setup:" + err.Error(), false
 	}
@@ -195,6 +228,12 @@ func runActEnv1(e *actEnv, id int) (answer string, fileKept bool) {
 	for i := 0; i < 3; i++ {
 		if e.Kinds[i] == "socket" {
 			cands[strconv.Itoa(3+i)] = addrs[i]
+		}
+	}
+	if e.Rounds == 2 {
+		// probe the second round only
+		for w := time.Now().Add(8 * time.Second); time.Now().Before(w) && !strings.Contains(stderr.String(), "ROUND2"); {
+			time.Sleep(5 * time.Millisecond)
 		}
 	}
 	deadline := time.Now().Add(3 * time.Second)
